@@ -41,12 +41,24 @@
                      if head.Seqno >= seqno return nil }
         on return:   deferred unsubscribe: p.mu.Lock(); delete(waitList, id); p.mu.Unlock()
 
+    The pool lock p.mu is Go's sync.RWMutex, which PREFERS WRITERS: Lock() first
+    announces itself (from then on every new RLock() waits) and then waits for the
+    readers already inside to leave.  So every acquisition of the write lock is two
+    steps here — announce ([wreq := Some a]; only one writer is announced at a time,
+    the others queue on the mutex's internal lock, i.e. have not taken the step yet)
+    and acquire (needs [readers = 0]) — and RLock() is enabled only when no writer is
+    announced or inside.  With this rule a critical section that takes p.mu.RLock()
+    again while holding it can deadlock (a writer announces in between): the flag
+    [reent] of the step function is that variant of notifySubscribers (reading
+    bestConn through the locking accessor bestConnection()); the real code is
+    [reent = false], the deadlock of [reent = true] is Proofs/PoolMutants.v.
+
     Reductions (sound because the merged code has no blocking operation and touches
     no shared state in between): unsubscribe is one step (Lock; delete; Unlock);
     receive + comparison is one step; the other users of p.mu (bestConnection,
     ConnectionsNumber: RLock, read, RUnlock; Status, addConnection: Lock, non-blocking
-    body, Unlock) are not agents here.  Go's RWMutex prefers a waiting writer over new
-    readers; that only removes interleavings, so every invariant proved here holds.
+    body, Unlock) are not agents here: they behave like a waiter's unsubscribe
+    (writers) or like nothing at all (readers that never wait while inside).
     Seqnos are plain N (the uint32 comparisons [>]/[>=] agree on values < 2^32). *)
 From Coq Require Import List NArith ZArith Bool Arith.
 From Tongo Require Import Model.Pool.
@@ -56,18 +68,22 @@ Definition msg := (nat * N)%type.          (* masterHeadUpdated: (Conn.ID(), Hea
 Inductive agent := ARun | AW (w : nat).
 Inductive wres := ROk | RTimeout | RCancel.
 Inductive wait_pc :=
-| WNew                      (* before subscribe: wants p.mu.Lock *)
+| WNew                      (* before subscribe *)
+| WSubW                     (* subscribe: p.mu.Lock() announced, waiting for the readers to leave *)
 | WSubL                     (* inside subscribe, holds p.mu (write) *)
 | WWait                     (* in the select loop *)
-| WUnsub (r : wres)         (* left the loop with result r; deferred unsubscribe wants p.mu.Lock *)
+| WUnsub (r : wres)         (* left the loop with result r; deferred unsubscribe not yet at p.mu.Lock *)
+| WUnsubW (r : wres)        (* unsubscribe: p.mu.Lock() announced, waiting for the readers to leave *)
 | WDone (r : wres)          (* returned r *)
 | WPanicked.                (* nil bestConn dereferenced in subscribe (pool without connections) *)
 Inductive run_pc :=
 | RIdle                                       (* in select *)
 | RWantR (u : msg)                            (* received u from masterHeadUpdatedCh, calling p.mu.RLock *)
+| RInner (u : msg)                            (* [reent] only: holds RLock, calling the accessor's RLock *)
 | RNotify (u : msg) (matched : bool) (rem : list nat)
                                               (* holds RLock; matched: u comes from bestConn;
                                                  channels (by waiter) still to be sent to *)
+| RWantW                                      (* ticker fired: updateBest's p.mu.Lock() announced *)
 | RUpd.                                       (* in updateBest, holds p.mu (write) *)
 
 Definition upd_cap : nat := 10.            (* make(chan masterHeadUpdated, 10) *)
@@ -79,6 +95,7 @@ Record state := mkS {
   best : option nat;
   readers : nat;
   writer : option agent;
+  wreq : option agent;
   wl : list (N * nat);
   next_id : N;
   rpc : run_pc;
@@ -89,37 +106,41 @@ Record state := mkS {
   woff : nat -> list msg;
   log : list msg
 }.
+(* readers: goroutines inside p.mu.RLock; writer: goroutine inside p.mu.Lock; wreq: the writer that has
+   announced p.mu.Lock() and waits for the readers to leave; woff, log: ghost fields *)
 
 Definition set_head (s : state) (v : nat -> N) : state :=
-  mkS v (pend s) (updq s) (best s) (readers s) (writer s) (wl s) (next_id s) (rpc s) (wpc s) (wid s) (wch s) (wgot s) (woff s) (log s).
+  mkS v (pend s) (updq s) (best s) (readers s) (writer s) (wreq s) (wl s) (next_id s) (rpc s) (wpc s) (wid s) (wch s) (wgot s) (woff s) (log s).
 Definition set_pend (s : state) (v : list msg) : state :=
-  mkS (head s) v (updq s) (best s) (readers s) (writer s) (wl s) (next_id s) (rpc s) (wpc s) (wid s) (wch s) (wgot s) (woff s) (log s).
+  mkS (head s) v (updq s) (best s) (readers s) (writer s) (wreq s) (wl s) (next_id s) (rpc s) (wpc s) (wid s) (wch s) (wgot s) (woff s) (log s).
 Definition set_updq (s : state) (v : list msg) : state :=
-  mkS (head s) (pend s) v (best s) (readers s) (writer s) (wl s) (next_id s) (rpc s) (wpc s) (wid s) (wch s) (wgot s) (woff s) (log s).
+  mkS (head s) (pend s) v (best s) (readers s) (writer s) (wreq s) (wl s) (next_id s) (rpc s) (wpc s) (wid s) (wch s) (wgot s) (woff s) (log s).
 Definition set_best (s : state) (v : option nat) : state :=
-  mkS (head s) (pend s) (updq s) v (readers s) (writer s) (wl s) (next_id s) (rpc s) (wpc s) (wid s) (wch s) (wgot s) (woff s) (log s).
+  mkS (head s) (pend s) (updq s) v (readers s) (writer s) (wreq s) (wl s) (next_id s) (rpc s) (wpc s) (wid s) (wch s) (wgot s) (woff s) (log s).
 Definition set_readers (s : state) (v : nat) : state :=
-  mkS (head s) (pend s) (updq s) (best s) v (writer s) (wl s) (next_id s) (rpc s) (wpc s) (wid s) (wch s) (wgot s) (woff s) (log s).
+  mkS (head s) (pend s) (updq s) (best s) v (writer s) (wreq s) (wl s) (next_id s) (rpc s) (wpc s) (wid s) (wch s) (wgot s) (woff s) (log s).
 Definition set_writer (s : state) (v : option agent) : state :=
-  mkS (head s) (pend s) (updq s) (best s) (readers s) v (wl s) (next_id s) (rpc s) (wpc s) (wid s) (wch s) (wgot s) (woff s) (log s).
+  mkS (head s) (pend s) (updq s) (best s) (readers s) v (wreq s) (wl s) (next_id s) (rpc s) (wpc s) (wid s) (wch s) (wgot s) (woff s) (log s).
+Definition set_wreq (s : state) (v : option agent) : state :=
+  mkS (head s) (pend s) (updq s) (best s) (readers s) (writer s) v (wl s) (next_id s) (rpc s) (wpc s) (wid s) (wch s) (wgot s) (woff s) (log s).
 Definition set_wl (s : state) (v : list (N * nat)) : state :=
-  mkS (head s) (pend s) (updq s) (best s) (readers s) (writer s) v (next_id s) (rpc s) (wpc s) (wid s) (wch s) (wgot s) (woff s) (log s).
+  mkS (head s) (pend s) (updq s) (best s) (readers s) (writer s) (wreq s) v (next_id s) (rpc s) (wpc s) (wid s) (wch s) (wgot s) (woff s) (log s).
 Definition set_next_id (s : state) (v : N) : state :=
-  mkS (head s) (pend s) (updq s) (best s) (readers s) (writer s) (wl s) v (rpc s) (wpc s) (wid s) (wch s) (wgot s) (woff s) (log s).
+  mkS (head s) (pend s) (updq s) (best s) (readers s) (writer s) (wreq s) (wl s) v (rpc s) (wpc s) (wid s) (wch s) (wgot s) (woff s) (log s).
 Definition set_rpc (s : state) (v : run_pc) : state :=
-  mkS (head s) (pend s) (updq s) (best s) (readers s) (writer s) (wl s) (next_id s) v (wpc s) (wid s) (wch s) (wgot s) (woff s) (log s).
+  mkS (head s) (pend s) (updq s) (best s) (readers s) (writer s) (wreq s) (wl s) (next_id s) v (wpc s) (wid s) (wch s) (wgot s) (woff s) (log s).
 Definition set_wpc (s : state) (v : nat -> wait_pc) : state :=
-  mkS (head s) (pend s) (updq s) (best s) (readers s) (writer s) (wl s) (next_id s) (rpc s) v (wid s) (wch s) (wgot s) (woff s) (log s).
+  mkS (head s) (pend s) (updq s) (best s) (readers s) (writer s) (wreq s) (wl s) (next_id s) (rpc s) v (wid s) (wch s) (wgot s) (woff s) (log s).
 Definition set_wid (s : state) (v : nat -> N) : state :=
-  mkS (head s) (pend s) (updq s) (best s) (readers s) (writer s) (wl s) (next_id s) (rpc s) (wpc s) v (wch s) (wgot s) (woff s) (log s).
+  mkS (head s) (pend s) (updq s) (best s) (readers s) (writer s) (wreq s) (wl s) (next_id s) (rpc s) (wpc s) v (wch s) (wgot s) (woff s) (log s).
 Definition set_wch (s : state) (v : nat -> option msg) : state :=
-  mkS (head s) (pend s) (updq s) (best s) (readers s) (writer s) (wl s) (next_id s) (rpc s) (wpc s) (wid s) v (wgot s) (woff s) (log s).
+  mkS (head s) (pend s) (updq s) (best s) (readers s) (writer s) (wreq s) (wl s) (next_id s) (rpc s) (wpc s) (wid s) v (wgot s) (woff s) (log s).
 Definition set_wgot (s : state) (v : nat -> option msg) : state :=
-  mkS (head s) (pend s) (updq s) (best s) (readers s) (writer s) (wl s) (next_id s) (rpc s) (wpc s) (wid s) (wch s) v (woff s) (log s).
+  mkS (head s) (pend s) (updq s) (best s) (readers s) (writer s) (wreq s) (wl s) (next_id s) (rpc s) (wpc s) (wid s) (wch s) v (woff s) (log s).
 Definition set_woff (s : state) (v : nat -> list msg) : state :=
-  mkS (head s) (pend s) (updq s) (best s) (readers s) (writer s) (wl s) (next_id s) (rpc s) (wpc s) (wid s) (wch s) (wgot s) v (log s).
+  mkS (head s) (pend s) (updq s) (best s) (readers s) (writer s) (wreq s) (wl s) (next_id s) (rpc s) (wpc s) (wid s) (wch s) (wgot s) v (log s).
 Definition set_log (s : state) (v : list msg) : state :=
-  mkS (head s) (pend s) (updq s) (best s) (readers s) (writer s) (wl s) (next_id s) (rpc s) (wpc s) (wid s) (wch s) (wgot s) (woff s) v.
+  mkS (head s) (pend s) (updq s) (best s) (readers s) (writer s) (wreq s) (wl s) (next_id s) (rpc s) (wpc s) (wid s) (wch s) (wgot s) (woff s) v.
 
 Definition fupd {A} (f : nat -> A) (i : nat) (v : A) : nat -> A :=
   fun j => if Nat.eqb j i then v else f j.
@@ -136,20 +157,35 @@ Inductive label :=
 | LPublish (k : nat)           (* the send of the k-th pending caller into masterHeadUpdatedCh completes *)
 | LTake                        (* Run: update := <-masterHeadUpdatedCh *)
 | LRLock (order : list nat)    (* Run: p.mu.RLock() in notifySubscribers; map order chosen *)
+| LRInner (order : list nat)   (* [reent] only: the accessor's RLock(); read; RUnlock() *)
 | LSend                        (* Run: notifySubscriber(ch, update.Head) for the next channel *)
 | LRUnlock                     (* Run: loop finished, p.mu.RUnlock() *)
-| LTick                        (* Run: ticker fired, updateBest: p.mu.Lock() *)
+| LTick                        (* Run: ticker fired, updateBest: p.mu.Lock() announced *)
+| LUpdLock                     (* Run: the write lock is acquired *)
 | LUpdDone (obs : list (bool * Z))
                                (* Run: heads read, IsOK()/AverageRoundTrip() observed as [obs],
                                   bestConn := selection; p.mu.Unlock() *)
-| LSubLock (w : nat)           (* waiter: p.mu.Lock() in subscribe *)
+| LSubWant (w : nat)           (* waiter: p.mu.Lock() in subscribe announced *)
+| LSubLock (w : nat)           (* waiter: the write lock is acquired *)
 | LSubBody (w : nat)           (* waiter: body of subscribe; p.mu.Unlock() *)
 | LRecv (w : nat)              (* waiter: head := <-ch and the comparison *)
 | LLeave (w : nat) (r : wres)  (* waiter: timer (RTimeout) or ctx.Done (RCancel) branch *)
-| LUnsub (w : nat).            (* waiter: deferred unsubscribe, atomically *)
+| LUnsubWant (w : nat)         (* waiter: p.mu.Lock() in the deferred unsubscribe announced *)
+| LUnsub (w : nat).            (* waiter: lock acquired; delete; Unlock *)
 
 Definition lock_free (s : state) : bool :=
   Nat.eqb (readers s) 0 && match writer s with None => true | Some _ => false end.
+
+(** RLock() succeeds, and Lock() may announce itself: no writer inside or announced *)
+Definition no_writer (s : state) : bool :=
+  match writer s, wreq s with None, None => true | _, _ => false end.
+
+Definition is_wreq (s : state) (a : agent) : bool :=
+  match wreq s, a with
+  | Some ARun, ARun => true
+  | Some (AW w), AW w' => Nat.eqb w w'
+  | _, _ => false
+  end.
 
 Definition is_writer (s : state) (a : agent) : bool :=
   match writer s, a with
@@ -181,6 +217,7 @@ Definition mk_conns (nconns : nat) (heads : nat -> N) (obs : list (bool * Z)) : 
 
 Section Step.
   Variable strat : strategy.      (* p.strategy *)
+  Variable reent : bool.          (* false: the real code; true: notifySubscribers re-acquires RLock *)
   Variable nconns : nat.          (* len(p.conns), fixed after initialisation *)
   Variable tgt : nat -> N.        (* seqno waiter w waits for *)
 
@@ -204,15 +241,30 @@ Section Step.
         | _, _ => None
         end
     | LRLock order =>
-        match rpc s, writer s with
-        | RWantR u, None =>
-            let s1 := set_readers s (S (readers s)) in
-            if same_best s (fst u)
-            then if is_order order s
-                 then Some (set_log (set_rpc s1 (RNotify u true order)) (log s ++ [u]))
-                 else None
-            else Some (set_rpc s1 (RNotify u false []))
-        | _, _ => None
+        match rpc s with
+        | RWantR u =>
+            if no_writer s then
+              let s1 := set_readers s (S (readers s)) in
+              if reent then Some (set_rpc s1 (RInner u))
+              else if same_best s (fst u)
+              then if is_order order s
+                   then Some (set_log (set_rpc s1 (RNotify u true order)) (log s ++ [u]))
+                   else None
+              else Some (set_rpc s1 (RNotify u false []))
+            else None                          (* a writer is inside or announced: RLock waits *)
+        | _ => None
+        end
+    | LRInner order =>
+        match rpc s with
+        | RInner u =>
+            if reent && no_writer s then       (* the inner RLock obeys the same rule *)
+              if same_best s (fst u)
+              then if is_order order s
+                   then Some (set_log (set_rpc s (RNotify u true order)) (log s ++ [u]))
+                   else None
+              else Some (set_rpc s (RNotify u false []))
+            else None
+        | _ => None
         end
     | LSend =>
         match rpc s with
@@ -230,7 +282,14 @@ Section Step.
         end
     | LTick =>
         match rpc s with
-        | RIdle => if lock_free s then Some (set_rpc (set_writer s (Some ARun)) RUpd) else None
+        | RIdle => if no_writer s then Some (set_rpc (set_wreq s (Some ARun)) RWantW) else None
+        | _ => None
+        end
+    | LUpdLock =>
+        match rpc s with
+        | RWantW => if is_wreq s ARun && lock_free s
+                    then Some (set_rpc (set_wreq (set_writer s (Some ARun)) None) RUpd)
+                    else None
         | _ => None
         end
     | LUpdDone obs =>
@@ -242,11 +301,18 @@ Section Step.
             else None
         | _ => None
         end
+    | LSubWant w =>
+        match wpc s w with
+        | WNew => if no_writer s
+                  then Some (set_wpc (set_wreq s (Some (AW w))) (fupd (wpc s) w WSubW))
+                  else None
+        | _ => None
+        end
     | LSubLock w =>
         match wpc s w with
-        | WNew => if lock_free s
-                  then Some (set_wpc (set_writer s (Some (AW w))) (fupd (wpc s) w WSubL))
-                  else None
+        | WSubW => if is_wreq s (AW w) && lock_free s
+                   then Some (set_wpc (set_wreq (set_writer s (Some (AW w))) None) (fupd (wpc s) w WSubL))
+                   else None
         | _ => None
         end
     | LSubBody w =>
@@ -282,11 +348,18 @@ Section Step.
         | WWait, RTimeout | WWait, RCancel => Some (set_wpc s (fupd (wpc s) w (WUnsub r)))
         | _, _ => None
         end
+    | LUnsubWant w =>
+        match wpc s w with
+        | WUnsub r => if no_writer s
+                      then Some (set_wpc (set_wreq s (Some (AW w))) (fupd (wpc s) w (WUnsubW r)))
+                      else None
+        | _ => None
+        end
     | LUnsub w =>
         match wpc s w with
-        | WUnsub r =>
-            if lock_free s
-            then Some (set_wpc (set_wl s (filter (fun e => negb (N.eqb (fst e) (wid s w))) (wl s)))
+        | WUnsubW r =>
+            if is_wreq s (AW w) && lock_free s
+            then Some (set_wpc (set_wreq (set_wl s (filter (fun e => negb (N.eqb (fst e) (wid s w))) (wl s))) None)
                                (fupd (wpc s) w (WDone r)))
             else None
         | _ => None
@@ -306,18 +379,20 @@ End Step.
 
 (** a freshly built pool: heads and the current choice are arbitrary *)
 Definition init_state (heads : nat -> N) (b : option nat) : state :=
-  mkS heads [] [] b 0 None [] 0%N RIdle
+  mkS heads [] [] b 0 None None [] 0%N RIdle
       (fun _ => WNew) (fun _ => 0%N) (fun _ => None) (fun _ => None) (fun _ => []) [].
 
 (** ---- vocabulary of the theorems ---- *)
 
 (** the holder of the pool lock (writer, or the reader = Run in notifySubscribers)
     has an enabled step *)
-Definition holder_can_step (strat : strategy) (nconns : nat) (tgt : nat -> N) (s : state) : Prop :=
+Definition holder_can_step (strat : strategy) (reent : bool) (nconns : nat) (tgt : nat -> N) (s : state) : Prop :=
   match writer s with
-  | Some (AW w) => step strat nconns tgt s (LSubBody w) <> None
-  | Some ARun => forall obs, step strat nconns tgt s (LUpdDone obs) <> None
-  | None => readers s = 0 \/ step strat nconns tgt s LSend <> None \/ step strat nconns tgt s LRUnlock <> None
+  | Some (AW w) => step strat reent nconns tgt s (LSubBody w) <> None
+  | Some ARun => forall obs, step strat reent nconns tgt s (LUpdDone obs) <> None
+  | None => readers s = 0 \/ step strat reent nconns tgt s LSend <> None \/
+            step strat reent nconns tgt s LRUnlock <> None \/
+            exists o, step strat reent nconns tgt s (LRInner o) <> None
   end.
 
 (** the steps by which the current holder of the pool lock finishes its critical
@@ -332,10 +407,23 @@ Definition release (s : state) : list label :=
             end
   end.
 
+(** the steps by which the announced writer, once the lock is free, takes it and
+    finishes its critical section *)
+Definition serve (s : state) : list label :=
+  match wreq s with
+  | Some ARun => [LUpdLock; LUpdDone []]
+  | Some (AW w) => match wpc s w with
+                   | WSubW => [LSubLock w; LSubBody w]
+                   | _ => [LUnsub w]
+                   end
+  | None => []
+  end.
+
 (** labels that are moves of the pool's own goroutines finishing what they started
-    (no new head, no new caller, no timeout) *)
+    (no new head, no new caller, no timeout, no new lock request) *)
 Definition internal (l : label) : bool :=
   match l with
-  | LSend | LRUnlock | LUpdDone _ | LSubBody _ | LRLock _ | LTake => true
+  | LSend | LRUnlock | LUpdDone _ | LSubBody _ | LRLock _ | LTake
+  | LUpdLock | LSubLock _ | LUnsub _ => true
   | _ => false
   end.
